@@ -6,7 +6,7 @@
    the empty remainder) or two differently named variables at the same
    position, or the same template and method with version ranges that overlap;
    [wf_template]: no repeated variable name, nothing after a wildcard. *)
-From DS Require Import Base Versions VersionsProofs Router RouterSpec RouterProofs.
+From DS Require Import Base Versions VersionsProofs Router RouterSpec RouterProofs Register RegisterProofs.
 
 Section C02.
   Variable V : Type.
@@ -85,6 +85,54 @@ Section C02.
     let st := register_history V cmp hist in
     build V cmp (fst st) = Ok (snd st) /\ table_ok V cmp (fst st).
   Proof. exact (history_invariant V cmp). Qed.
+
+  (* 5. the whole of [ApiDescription::register] — tag policy, parameter
+     validation, then the router: a declaration is accepted exactly when its
+     tags respect the policy, its path variables are exactly the handler's
+     path parameters, no name is both a path and a query parameter, every
+     path / query parameter is scalar (the wildcard's an array of strings), and
+     it conflicts with no accepted declaration *)
+  Theorem C02_register_accept_iff : forall tc (eps : list (decl V)) r (d : full_decl V) t,
+    build V cmp eps = Ok r -> parse_template (d_path d) = Ok t ->
+    ((exists r', register V cmp tc r d = RAccepted r') <->
+     tags_ok tc (e_visible (d_ep d)) (d_tags d) = true /\
+     params_valid t (d_defs d) (d_params d) /\
+     acceptable V cmp eps (t, d_ep d) = true).
+  Proof. exact (register_accept_iff V cmp). Qed.
+
+  Theorem C02_tag_policy_rejected : forall tc r (d : full_decl V),
+    tags_ok tc (e_visible (d_ep d)) (d_tags d) = false -> register V cmp tc r d = RRefused.
+  Proof. exact (tag_policy_rejected V cmp). Qed.
+
+  Theorem C02_param_mismatch_rejected : forall tc r (d : full_decl V) t x,
+    parse_template (d_path d) = Ok t ->
+    (In x (vars_of t) /\ ~ In x (path_names (d_params d)) \/
+     ~ In x (vars_of t) /\ In x (path_names (d_params d))) ->
+    forall r', register V cmp tc r d <> RAccepted r'.
+  Proof. exact (param_mismatch_rejected V cmp). Qed.
+
+  Theorem C02_path_and_query_rejected : forall tc r (d : full_decl V) t p,
+    parse_template (d_path d) = Ok t -> In p (d_params d) ->
+    p_loc p = LQuery -> In (p_name p) (vars_of t) ->
+    forall r', register V cmp tc r d <> RAccepted r'.
+  Proof. exact (path_and_query_rejected V cmp). Qed.
+
+  Theorem C02_nonscalar_rejected : forall tc r (d : full_decl V) t p,
+    parse_template (d_path d) = Ok t -> In p (d_params d) ->
+    match p_loc p, seg_kind (p_name p) (seg_vars t) with
+    | LPath, Some true => is_string_array FUEL (d_defs d) (flatten_top (p_schema p)) <> Ok true
+    | LPath, None => False
+    | _, _ => is_scalar FUEL (d_defs d) scalar_ty (flatten_top (p_schema p)) <> Ok true
+    end ->
+    forall r', register V cmp tc r d <> RAccepted r'.
+  Proof. exact (nonscalar_rejected V cmp). Qed.
+
+  (* a registration that is not accepted stores nothing; an accepted one is
+     exactly the router's insert of the parsed template *)
+  Theorem C02_register_accepted_is_insert : forall tc (r r' : node V) (d : full_decl V),
+    register V cmp tc r d = RAccepted r' ->
+    exists t, parse_template (d_path d) = Ok t /\ insert V cmp r (t, d_ep d) = Ok r'.
+  Proof. exact (register_accepted_is_insert V cmp). Qed.
 End C02.
 
 Print Assumptions C02_accept_iff.
@@ -97,3 +145,9 @@ Print Assumptions C02_after_wildcard_rejected.
 Print Assumptions C02_accepted_unambiguous.
 Print Assumptions C02_accepted_reachable.
 Print Assumptions C02_history_invariant.
+Print Assumptions C02_register_accept_iff.
+Print Assumptions C02_tag_policy_rejected.
+Print Assumptions C02_param_mismatch_rejected.
+Print Assumptions C02_path_and_query_rejected.
+Print Assumptions C02_nonscalar_rejected.
+Print Assumptions C02_register_accepted_is_insert.
